@@ -505,7 +505,7 @@ fn gen_trigger(rng: &mut Rng, profile: &str) -> TriggerSpec {
             unit: *rng.pick(&Unit::ALL),
             n: *rng.pick(&[1_000_000i64, 2_147_483_647, 2_147_483_648, 1 << 40, 300_000, 100_000_000_000, i64::MAX]),
             modulate: rng.chance(1, 2),
-            max_delay: *rng.pick(&[0u64, 0, 7]),
+            max_delay: *rng.pick(&[0u64, 0, 7, 10_000_000_000_000_000, 1 << 63, u64::MAX]),
         },
         _ => match rng.weighted(&[4, 2, 2, 3]) {
             0 => TriggerSpec::Size { limit: gen_limit(rng) },
@@ -877,7 +877,7 @@ fn lenient_check(sh: &Shared, m: &Model, when: &str) {
     let tree = sh.names.snapshot();
     let pre = PreState::default();
     let unacked = HashSet::new();
-    let ctx = InstantCtx { names: &sh.names, roller: &m.roller, tree: &tree, pre: &pre, in_roll: false, unacked: &unacked, compress_site: true, stream: &m.stream, when };
+    let ctx = InstantCtx { names: &sh.names, roller: &m.roller, tree: &tree, pre: &pre, in_roll: false, unacked: &unacked, compress_site: true, tolerate_corrupt: true, stream: &m.stream, when };
     rmodel::check_instant(&ctx, &sh.sink);
 }
 
@@ -898,6 +898,7 @@ fn after_fault(sh: &Arc<Shared>, unacked: &HashSet<RecId>, when: &str) {
         in_roll,
         unacked,
         compress_site: site.starts_with("compress."),
+        tolerate_corrupt: *sh.lenient.lock().unwrap(),
         stream: &m.stream.clone(),
         when,
     };
@@ -1067,15 +1068,10 @@ pub fn execute(scn: &Scn, opts: &ExecOpts) -> Outcome {
                             if !append {
                                 let mut m = sh.model.lock().unwrap();
                                 // truncate mode discards exactly the active chunk, at open
+                                // the active file's records are the tail of the stream
                                 let n = frame::whole_ids(&m.active).len();
                                 let keep = m.stream.len() - n.min(m.stream.len());
-                                // (only the trailing records of the stream that were in the active file)
-                                let active_ids: HashSet<RecId> = frame::whole_ids(&m.active).into_iter().collect();
-                                if m.stream[keep..].iter().all(|i| active_ids.contains(i)) {
-                                    m.stream.truncate(keep);
-                                } else {
-                                    m.stream.retain(|i| !active_ids.contains(i));
-                                }
+                                m.stream.truncate(keep);
                                 m.active.clear();
                             }
                             if !*sh.dirty.lock().unwrap() && !*sh.lenient.lock().unwrap() {
@@ -1093,8 +1089,9 @@ pub fn execute(scn: &Scn, opts: &ExecOpts) -> Outcome {
                                     // truncate mode discards the active chunk at open time, whether or
                                     // not the rest of the start-up then succeeds
                                     let mut m = sh.model.lock().unwrap();
-                                    let ids: HashSet<RecId> = frame::whole_ids(&m.active).into_iter().collect();
-                                    m.stream.retain(|i| !ids.contains(i));
+                                    let n = frame::whole_ids(&m.active).len();
+                                    let keep = m.stream.len().saturating_sub(n);
+                                    m.stream.truncate(keep);
                                     m.active.clear();
                                 }
                                 let unacked = HashSet::new();
@@ -1288,11 +1285,12 @@ fn crash_image(sh: &Arc<Shared>, site: &str, n: u32) {
     let mut stream = m.stream.clone();
     if *sh.truncating.lock().unwrap() && tree.get(&sh.names.key(&sh.names.active)).map(|b| b.is_empty()).unwrap_or(true) {
         // truncate mode: the open has already discarded the active chunk
-        let ids: HashSet<RecId> = frame::whole_ids(&pre.active).into_iter().collect();
-        stream.retain(|i| !ids.contains(i));
+        let n = frame::whole_ids(&pre.active).len();
+        let keep = stream.len().saturating_sub(n);
+        stream.truncate(keep);
         pre.active.clear();
     }
-    let ctx = InstantCtx { names: &sh.names, roller: &m.roller, tree: &tree, pre: &pre, in_roll, unacked: &unacked, compress_site: site.starts_with("compress."), stream: &stream, when: &when };
+    let ctx = InstantCtx { names: &sh.names, roller: &m.roller, tree: &tree, pre: &pre, in_roll, unacked: &unacked, compress_site: site.starts_with("compress."), tolerate_corrupt: *sh.lenient.lock().unwrap(), stream: &stream, when: &when };
     if rmodel::check_instant(&ctx, &sh.sink) {
         let img = sh.names.root.with_extension("img");
         let _ = fs::remove_dir_all(&img);
@@ -1332,8 +1330,10 @@ fn liveness_epilogue(k: &Arc<kernel::Kernel>, scn: &Scn, sh: &Arc<Shared>, live:
                 Ok(a) => {
                     if !mode {
                         let mut m = sh.model.lock().unwrap();
-                        let ids: HashSet<RecId> = frame::whole_ids(&m.active).into_iter().collect();
-                        m.stream.retain(|i| !ids.contains(i));
+                        // the active file's records are the tail of the stream
+                        let n = frame::whole_ids(&m.active).len();
+                        let keep = m.stream.len().saturating_sub(n);
+                        m.stream.truncate(keep);
                         m.active.clear();
                     }
                     let a = Arc::new(a);
